@@ -247,7 +247,7 @@ fn compressed_malformed(ctx: &mut Ctx) {
     use plonky2::plonk::config::PoseidonGoldilocksConfig as C;
     use plonky2::plonk::proof::CompressedProofWithPublicInputs as CP;
     use plonky2_field::goldilocks_field::GoldilocksField as G;
-    if !ctx.wants("C18.S.plonkv.shape.compressed") {
+    if !ctx.wants("C18.S.plonkv.shape.") {
         return;
     }
     let built = std::panic::catch_unwind(|| {
